@@ -274,47 +274,95 @@ fn session_text<'a>() -> Option<&'a SymStr> {
     Some(SymStr::new(bytes))
 }
 
-fn wrap_model(text_len: usize) -> Option<(&'static SymStr, Rc<HProg>)> {
+/// The text a session search is made on: the whole symbolic text, or -- when the caller
+/// hands regex-automata a sub-slice of the placeholder -- the same sub-slice of it.
+fn session_view(hay: &[u8]) -> Option<(&'static SymStr, Rc<HProg>)> {
     let t = session_text()?;
-    if t.raw().len() != text_len {
+    let w = SESSION_WRAP.with(|s| s.borrow().clone()).expect("SYMX: session without wrap model");
+    if t.raw().len() == hay.len() {
+        return Some((t, w));
+    }
+    let (pp, pn) = PLACEHOLDER.with(|p| *p.borrow()).unwrap_or((core::ptr::null(), 0));
+    let off = (hay.as_ptr() as usize).wrapping_sub(pp as usize);
+    if pp.is_null() || off > pn || off + hay.len() > pn {
         panic!("SYMX-SESSION-LENGTH-MISMATCH");
     }
-    let w = SESSION_WRAP.with(|s| s.borrow().clone()).expect("SYMX: session without wrap model");
-    Some((t, w))
+    let sub: &SymStr = &t[off..off + hay.len()];
+    // SAFETY: lives as long as the session text
+    let sub: &'static SymStr = unsafe { &*(sub as *const SymStr) };
+    Some((sub, w))
 }
 
-pub(crate) fn wrap_search(inner: &regex_automata::meta::Regex, text: &str, pos: usize) -> Option<(usize, usize)> {
-    match wrap_model(text.len()) {
-        Some((t, w)) => hirmodel::search(&w, t, pos).map(|c| (c[0].unwrap(), c[1].unwrap())),
-        None => inner.search(&RaInput::new(text).span(pos..text.len())).map(|m| (m.start(), m.end())),
+std::thread_local! {
+    static PLACEHOLDER: RefCell<Option<(*const u8, usize)>> = RefCell::new(None);
+}
+
+/// The placeholder text the wrappers run on (so that a sub-slice handed to the automaton
+/// can be located in the symbolic text).
+pub fn set_placeholder(ph: &str) {
+    PLACEHOLDER.with(|p| *p.borrow_mut() = Some((ph.as_ptr(), ph.len())));
+}
+
+/// `regex_automata::meta::Regex` as the repository's wrappers see it: outside a session the
+/// real automaton, inside one the model over the symbolic text.  The `Input` is the one the
+/// repository's code built (haystack, span, anchored mode are read from it).
+pub struct RaShim<'a>(pub &'a regex_automata::meta::Regex);
+
+fn shim_model(input: &RaInput<'_>) -> Option<Option<Vec<Option<usize>>>> {
+    let (t, w) = session_view(input.haystack())?;
+    if input.end() != input.haystack().len() {
+        panic!("SYMX-UNSUPPORTED: search span ends before the haystack does");
     }
+    let start = input.start();
+    Some(match input.get_anchored() {
+        regex_automata::Anchored::No => hirmodel::search(&w, t, start),
+        _ => {
+            let mut out = Vec::new();
+            hirmodel::anchored(&w, t, start, &mut out).map(|_| out)
+        }
+    })
 }
 
-pub(crate) fn wrap_is_match(inner: &regex_automata::meta::Regex, text: &str) -> bool {
-    match wrap_model(text.len()) {
-        Some((t, w)) => hirmodel::search(&w, t, 0).is_some(),
-        None => inner.is_match(text),
+impl<'a> RaShim<'a> {
+    pub fn search(&self, input: &RaInput<'_>) -> Option<regex_automata::Match> {
+        match shim_model(input) {
+            Some(r) => r.map(|c| regex_automata::Match::new(regex_automata::PatternID::ZERO, c[0].unwrap()..c[1].unwrap())),
+            None => self.0.search(input),
+        }
     }
-}
-
-pub(crate) fn wrap_captures(
-    inner: &regex_automata::meta::Regex,
-    text: &str,
-    pos: usize,
-    locations: &mut regex_automata::util::captures::Captures,
-) {
-    match wrap_model(text.len()) {
-        Some((t, w)) => match hirmodel::search(&w, t, pos) {
-            Some(c) => {
+    pub fn find<'h, I: Into<RaInput<'h>>>(&self, input: I) -> Option<regex_automata::Match> {
+        let input = input.into();
+        self.search(&input)
+    }
+    pub fn search_half(&self, input: &RaInput<'_>) -> Option<regex_automata::HalfMatch> {
+        match shim_model(input) {
+            Some(r) => r.map(|c| regex_automata::HalfMatch::new(regex_automata::PatternID::ZERO, c[1].unwrap())),
+            None => self.0.search_half(input),
+        }
+    }
+    pub fn is_match<'h, I: Into<RaInput<'h>>>(&self, input: I) -> bool {
+        let input = input.into();
+        match shim_model(&input) {
+            Some(r) => r.is_some(),
+            None => self.0.is_match(input),
+        }
+    }
+    pub fn captures<'h, I: Into<RaInput<'h>>>(&self, input: I, locations: &mut regex_automata::util::captures::Captures) {
+        let input = input.into();
+        match shim_model(&input) {
+            Some(Some(c)) => {
                 locations.set_pattern(Some(regex_automata::PatternID::ZERO));
                 let slots = locations.slots_mut();
                 for (i, s) in slots.iter_mut().enumerate() {
                     *s = c.get(i).cloned().flatten().and_then(regex_automata::util::primitives::NonMaxUsize::new);
                 }
             }
-            None => locations.set_pattern(None),
-        },
-        None => inner.captures(RaInput::new(text).span(pos..text.len()), locations),
+            Some(None) => locations.set_pattern(None),
+            None => self.0.captures(input, locations),
+        }
+    }
+    pub fn create_captures(&self) -> regex_automata::util::captures::Captures {
+        self.0.create_captures()
     }
 }
 
